@@ -56,6 +56,9 @@ def _size_space(tier):
     for comp in [(1,), (2,), (1, 1), (2, 1), (1, 2)]:
         k = sum(comp)
         parts.append(Product(["tsl"], [comp], power(strides if k <= 2 else strides[::2], k), [0, 3], [1, 4] if k > 2 else [1, 2, 4, 8], [0, 1, 2]))
+        if len(comp) >= 2:
+            # the run-time dimension comes after a static one
+            parts.append(Product(["tsl"], [comp], power(strides[::2], k), [0, 3], [1, 4], [3, 4]))
     return Concat(*parts)
 
 
@@ -123,9 +126,11 @@ def eval_size(r, kind, comp_or_shape, flat, offset, elw, dynmode):
         shape = ref.shape(dims)
         dyn = []
         tdims = [list(d) for d in dims]
+        # dynmode 1 / 2: the outermost tile of dim 0 has a run-time bound (2: and step); 3 / 4: the same on the LAST dim, after static dims
+        dd = 0 if dynmode in (1, 2) else len(dims) - 1
         if dynmode >= 1:
-            tdims[0][0] = (None, None if dynmode == 2 else dims[0][0][1])
-            dyn = [0]
+            tdims[dd][0] = (None, None if dynmode in (2, 4) else dims[dd][0][1])
+            dyn = [dd]
         parts = []
         for d in tdims:
             parts.append("[" + ", ".join("?" if b is None else str(b) for b, _ in d) + "] -> (" + ", ".join("?" if s is None else str(s) for _, s in d) + ")")
@@ -134,8 +139,8 @@ def eval_size(r, kind, comp_or_shape, flat, offset, elw, dynmode):
     for rt in rt_menu:
         shp = list(shape)
         if dyn:
-            inner = _prod([b for b, _ in dims[0][1:]])
-            shp[0] = rt * inner
+            inner = _prod([b for b, _ in dims[dd][1:]])
+            shp[dd] = rt * inner
         tshape = "x".join("?" if (i in dyn) else str(n) for i, n in enumerate(shp))
         dynargs = "%d0" if dyn else ""
         pre = '  %d0 = "test.op"() : () -> index\n' if dyn else ""
@@ -153,7 +158,7 @@ def eval_size(r, kind, comp_or_shape, flat, offset, elw, dynmode):
         if alloc is None:
             r.rejected = "not-converted"
             return
-        it = Interp(handlers={"test.op": lambda it_, op: [shp[0]], "snax.alloc": lambda it_, op: [None], "builtin.unrealized_conversion_cast": lambda it_, op: [None]}, budget=5000)
+        it = Interp(handlers={"test.op": lambda it_, op: [shp[dd] if dyn else 0], "snax.alloc": lambda it_, op: [None], "builtin.unrealized_conversion_cast": lambda it_, op: [None]}, budget=5000)
         f = find_func(mod, "f")
         try:
             it.run_func(f, [])
@@ -169,9 +174,9 @@ def eval_size(r, kind, comp_or_shape, flat, offset, elw, dynmode):
             if dyn:
                 from checks.C10 import doc_rule_steps
 
-                inst[0][0] = (rt, None if dynmode == 2 else dims[0][0][1])
+                inst[dd][0] = (rt, None if dynmode in (2, 4) else dims[dd][0][1])
                 static_bounds = [[b for b, _ in d] for d in dims]
-                static_bounds[0][0] = None
+                static_bounds[dd][0] = None
                 inst = doc_rule_steps(inst, static_bounds)
             hi = max(ref.addr(inst, idx) for idx in ref.box(ref.shape(inst)))
             want = (hi + 1 + offset) * elw
@@ -182,14 +187,14 @@ def eval_size(r, kind, comp_or_shape, flat, offset, elw, dynmode):
             r.violate(key + "|too-small", case, f"memref<{tshape}x{el}{lay}> at run-time shape {shp}: {got} bytes are allocated but the layout touches {want} bytes")
         elif got > want:
             r.count("over_allocated_cases")
-        if dyn and not r.violations:
-            dynamic_alloc_level(r, key, case, tshape, el, lay, shp, got)
+        if dyn and rt == 2 and not r.violations:
+            dynamic_alloc_level(r, key, case, tshape, el, lay, shp, got, shp[dd])
     r.obs = ("size", kind, comp_or_shape, flat, offset, elw, dynmode)
     r.nontrivial = kind != "none"
     r.sample = dict(kind="size", type=f"memref<{'x'.join(map(str, shape))}x{el}{lay}>")
 
 
-def dynamic_alloc_level(r, key, case, tshape, el, lay, shp, size_bytes):
+def dynamic_alloc_level(r, key, case, tshape, el, lay, shp, size_bytes, dynval):
     """a dynamically sized buffer makes snax-allocate{mode=auto} take the run-time allocation path: the request passed to snax_alloc_l1 carries the computed size
     and the declared alignment, and the memref descriptor handed to the users holds the returned pointers, offset 0 and the run-time sizes"""
     text = (
@@ -228,7 +233,7 @@ def dynamic_alloc_level(r, key, case, tshape, el, lay, shp, size_bytes):
         if op.operands:
             seen.append(it.get(op.operands[0]))
             return []
-        return [shp[0]]
+        return [dynval]
 
     h = {
         "func.call": h_call, "llvm.load": lambda it, op: [{(0,): P, (1,): A}], "llvm.extractvalue": h_extract, "llvm.mlir.undef": lambda it, op: [{}],
